@@ -312,6 +312,12 @@ func HandleLsub(deps ServerDeps, conn net.Conn, tag string, parts []string, stat
 
 // ===== CREATE =====
 
+// isRoleNamespace reports whether name lies in the namespace LIST and SELECT
+// reserve for role mailboxes ("Roles" and everything below it).
+func isRoleNamespace(name string) bool {
+	return name == "Roles" || strings.HasPrefix(name, "Roles/")
+}
+
 func HandleCreate(deps ServerDeps, conn net.Conn, tag string, parts []string, state *models.ClientState) {
 	if !state.Authenticated {
 		deps.SendResponse(conn, fmt.Sprintf("%s NO Please authenticate first", tag))
@@ -339,6 +345,13 @@ func HandleCreate(deps ServerDeps, conn net.Conn, tag string, parts []string, st
 	// Check if trying to create INBOX (case-insensitive)
 	if strings.ToUpper(mailboxName) == "INBOX" {
 		deps.SendResponse(conn, fmt.Sprintf("%s NO Cannot create INBOX - it already exists", tag))
+		return
+	}
+
+	// "Roles/..." names address role mailboxes (see HandleList, HandleSelect); a
+	// personal mailbox of that name could never be selected
+	if isRoleNamespace(mailboxName) {
+		deps.SendResponse(conn, fmt.Sprintf("%s NO Cannot create mailbox in the Roles namespace", tag))
 		return
 	}
 
@@ -480,6 +493,12 @@ func HandleRename(deps ServerDeps, conn net.Conn, tag string, parts []string, st
 	// Validate mailbox names
 	if oldName == "" || newName == "" {
 		deps.SendResponse(conn, fmt.Sprintf("%s BAD Invalid mailbox names", tag))
+		return
+	}
+
+	// "Roles/..." names address role mailboxes; see HandleCreate
+	if isRoleNamespace(newName) {
+		deps.SendResponse(conn, fmt.Sprintf("%s NO Cannot rename mailbox into the Roles namespace", tag))
 		return
 	}
 
